@@ -12,7 +12,13 @@ of every component of the chain).  The relation demanded for each edit is taken 
                        experiment, and ('exactly when') an upstream change that leaves every consumed content equal
   strong must be None : a referenced input file / producer output is missing
   fuzzy must be EQUAL : content written by a direct or indirect producer (+ the irrelevant aspects above)
-  fuzzy must DIFFER   : whenever the fuzzy hash of a producer is observed to differ (judged on every link of the chain)
+  fuzzy must DIFFER   : whenever the fuzzy hash of a producer is observed to differ (judged on every producer->consumer
+                       pair of the experiment, incl. side consumers using every reference form)
+  no hash downstream  : in EVERY materialised E': a component whose producer has no fuzzy hash has no fuzzy hash (all
+                       reference forms); a component that references a hash-less producer as a bare directory has no
+                       strong hash.  Edits H1/H2 make a producer 1..4 links above the target unhashable (its private input
+                       file, or the upstream file only it reads, is removed) while every file read further down exists;
+                       components naming only FILES must then keep their strong hash (content-based, 'exactly when').
 Edits the statement does not name (variable renamed to the same text, order of the references field, fuzzy under a
 change of the target's own definition) are recorded as informational counters only.
 """
@@ -31,6 +37,7 @@ vlib.bootstrap()
 
 from checks import _c16_gen as gen  # noqa: E402
 
+KEY_DIROFF = "C16:bare-producer-reference-off-the-command-line-ignored"
 KEY_DIGIT = "C16:trailing-digits-stripped-from-component-name"
 
 
@@ -147,8 +154,8 @@ def judge(w, base: Dict[str, Any], hb: Dict[str, Any], e: Dict[str, Any], he: Di
                 w.violation("%s hash %s produced while a referenced input is missing (%s: %s)" % (
                     which, b, eid, json.dumps(e["detail"])[:80]), witness(which, want, a, b))
     if e.get("chain_rule"):
-        links = list(zip(base["chain"], base["chain"][1:] + [tb]))
-        for prod, cons in links:
+        bforms = gen.pair_forms(base)
+        for (cons, prod), fs in sorted(bforms.items()):
             fp, fp2 = hb[prod][1], he[prod][1]
             fc, fc2 = hb[cons][1], he[cons][1]
             if fp is None or fp2 is None or fp == fp2:
@@ -157,8 +164,55 @@ def judge(w, base: Dict[str, Any], hb: Dict[str, Any], e: Dict[str, Any], he: Di
             w.count("chain_links_producer_fuzzy_changed_judged")
             if fc == fc2:
                 w.violation("fuzzy hash of %s did not change although the fuzzy hash of its producer %s changed "
-                            "(%s -> %s)" % (cons, prod, fp, fp2),
-                            witness("fuzzy-chain", "differ", fc, fc2))
+                            "(%s -> %s; reference form %s)" % (cons, prod, fp, fp2, sorted(fs)),
+                            witness("fuzzy-chain", "differ", fc, fc2),
+                            finding_key=KEY_DIROFF if fs <= {"dir-off-cmdline"} else None)
+    # ---- a component whose producer has no hash has no hash itself (every materialised E', every reference form)
+    forms = gen.pair_forms(e["spec"])
+    for (cons, prod), fs in sorted(forms.items()):
+        if cons not in he or prod not in he:
+            continue
+        off_only = fs <= {"dir-off-cmdline"}
+        # fuzzy: all forms
+        if he[prod][1] is None:
+            w.count("links_producer_without_fuzzy_hash_judged")
+            w.count("links_producer_without_fuzzy_hash_judged_form_" + "+".join(sorted(fs)))
+            if he[cons][1] is not None:
+                w.violation("%s has fuzzy hash %s although its producer %s has none (reference form %s, edit %s)" % (
+                    cons, he[cons][1], prod, sorted(fs), eid),
+                    witness("fuzzy-of-%s" % cons, "none", hb.get(cons, [None, None])[1], he[cons][1]),
+                    finding_key=KEY_DIROFF if off_only else None)
+        # strong: only where the statement lets the producer's hash stand in for content (bare producer reference)
+        if he[prod][0] is None and not (fs <= {"file"}):
+            w.count("links_producer_without_strong_hash_judged")
+            if he[cons][0] is not None and ("dir-on-cmdline" in fs or off_only):
+                w.violation("%s has strong hash %s although the producer %s it references as a directory has none "
+                            "(reference form %s, edit %s)" % (cons, he[cons][0], prod, sorted(fs), eid),
+                            witness("strong-of-%s" % cons, "none", hb.get(cons, [None, None])[0], he[cons][0]),
+                            finding_key=KEY_DIROFF if off_only else None)
+    if e.get("h_edit"):
+        root = e["unhashable_root"]
+        w.count("H_pairs")
+        w.count("H_pairs_distance_%d" % e.get("distance", 0))
+        if he[root][0] is not None:
+            w.violation("%s has strong hash %s while an input it references is missing (%s)" % (
+                root, he[root][0], json.dumps(e["detail"])[:100]), witness("strong-of-root", "none", hb[root][0], he[root][0]))
+        if he[root] == [None, None]:
+            w.count("H_root_without_any_hash")
+        else:
+            w.count("info_H_root_fuzzy_%s" % ("none" if he[root][1] is None else "present"))
+        # every other component reads only files that still exist with the same content: a component that names only
+        # FILES keeps its strong hash ('exactly when'); one that references a directory makes no such claim
+        dirty = {c_ for (c_, p_), fs in forms.items() if not (fs <= {"file"})}
+        for c_ in e["spec"]["comps"]:
+            n = c_["name"]
+            if n == root or n in dirty or n not in hb or hb[n][0] is None:
+                continue
+            w.count("H_strong_of_file_only_component_must_be_equal_judged")
+            if he[n][0] != hb[n][0]:
+                w.violation("strong hash of %s changed (%s -> %s) although every file it references exists unchanged; "
+                            "only the upstream component %s lost an input" % (n, hb[n][0], he[n][0], root),
+                            witness("strong-of-%s" % n, "equal", hb[n][0], he[n][0]))
     if e.get("twin"):
         w.count("twin_judged")
         if he[e["twin"]] != he[te]:
@@ -247,6 +301,14 @@ def main():
     c.floor("fuzzy_must_be_equal_judged", nbases * 6)
     c.floor("chain_links_producer_fuzzy_changed_judged", nbases)
     c.floor("twin_judged", int(nbases * 0.9))
+    c.floor("H_pairs", nbases)
+    c.floor("H_root_without_any_hash", nbases)
+    c.floor("H_pairs_distance_2", nbases // 6)
+    c.floor("H_pairs_distance_3", nbases // 12)
+    c.floor("links_producer_without_fuzzy_hash_judged_form_file", nbases * 2)
+    c.floor("links_producer_without_fuzzy_hash_judged_form_dir-on-cmdline", nbases // 3)
+    c.floor("links_producer_without_strong_hash_judged", nbases // 2)
+    c.floor("H_strong_of_file_only_component_must_be_equal_judged", nbases * 2)
     for eid in ("R1-executable", "R2-argument-literal", "R3-input-file-content", "R6-content-produced-by-direct-producer",
                 "I1-instance-location", "I2-target-name", "I2-producer-names", "I3-stage-indices", "I4-time",
                 "U1-upstream-definition-changes-contents-equal", "N2-missing-producer-output"):
